@@ -33,7 +33,7 @@ Proof. destruct v; reflexivity. Qed.
 (* seeded change "using": if VMOps::FindVarImport read through GetOwnField (fact [sbf_var_import_checked] = false), the
    sandboxed program `using <ApiUser object>; password` would fetch the password *)
 Definition sb_facts_import_unchecked (F : sb_facts) : sb_facts :=
-  {| sbf_exprs := sbf_exprs F; sbf_funcs := sbf_funcs F; sbf_cbguards := sbf_cbguards F; sbf_hidden := sbf_hidden F;
+  {| sbf_exprs := sbf_exprs F; sbf_cond_guards := sbf_cond_guards F; sbf_funcs := sbf_funcs F; sbf_cbguards := sbf_cbguards F; sbf_hidden := sbf_hidden F;
      sbf_hidden_globals := sbf_hidden_globals F; sbf_call_guard := sbf_call_guard F;
      sbf_getfield_checked := sbf_getfield_checked F; sbf_ref_get_checked := sbf_ref_get_checked F;
      sbf_indexer_noinit := sbf_indexer_noinit F; sbf_frame_inherit := sbf_frame_inherit F;
@@ -67,7 +67,7 @@ Proof. vm_compute. discriminate. Qed.
    establishes System#intersection pure ([sbf_purity] = false for it); the model lets such a native write every shared
    cell reachable from its arguments, and the sandboxed program `intersection(SbArr, [ 1 ])` changes the global array *)
 Definition sb_facts_purity (F : sb_facts) (n : sb_name) (b : bool) : sb_facts :=
-  {| sbf_exprs := sbf_exprs F; sbf_funcs := sbf_funcs F; sbf_cbguards := sbf_cbguards F; sbf_hidden := sbf_hidden F;
+  {| sbf_exprs := sbf_exprs F; sbf_cond_guards := sbf_cond_guards F; sbf_funcs := sbf_funcs F; sbf_cbguards := sbf_cbguards F; sbf_hidden := sbf_hidden F;
      sbf_hidden_globals := sbf_hidden_globals F; sbf_call_guard := sbf_call_guard F;
      sbf_getfield_checked := sbf_getfield_checked F; sbf_ref_get_checked := sbf_ref_get_checked F;
      sbf_indexer_noinit := sbf_indexer_noinit F; sbf_frame_inherit := sbf_frame_inherit F;
